@@ -70,6 +70,11 @@ template<class S, class SetP> static void term_case(const std::string &nm, int n
     try { r=solve<S>(s,prm,k); } catch (const std::runtime_error&) { hx::count("breakdown exception (solver reports exact convergence as breakdown)"); return; }
     hx::prove_eq_vec(nm+": A x = f after at most "+std::to_string(k)+" iterations", mv(s.Ad,std::get<2>(r)), s.f); },co); }
 
+// solvers without a dense reference in this harness (BiCGStab(L), IDR(s)): k iterations far from convergence; the obligation is the one inside solve():
+// the k-th iterate is a function of the call's arguments only (a second identical call on the used object performs the same operations)
+template<class S, class SetP> static void iterate_case(const std::string &nm, int n, int k, int prec, hx::Rng &rng, SetP setp) { hx::CaseOptions co; co.max_paths=8; hx::run_case("iterate/"+nm+"/n"+std::to_string(n)+"k"+std::to_string(k)+"p"+std::to_string(prec), [&]() { Sys s=make_sys(n,rng,false,prec); typename S::params prm; setp(prm);
+    try { auto r=solve<S>(s,prm,k); hx::require("the method performs at most maxiter (+L-1) iterations", std::get<0>(r)<=(size_t)k+3); } catch (const std::runtime_error&) { hx::count("breakdown exception paths"); } },co); }
+
 int main(int argc, char **argv) {
     hx::parse_args(argc,argv); bool T=hx::thorough(); hx::Rng rng(hx::args().seed);
     hx::encodes("solver::{cg,bicgstab,gmres,fgmres,lgmres,richardson,idrs,bicgstabl}<builtin<scalar>>::operator() with maxiter = k, no cuts (the true rational coefficients)");
@@ -82,5 +87,6 @@ int main(int argc, char **argv) {
     for (int n=2;n<=(T?3:2);++n) for (int ex=0;ex<2;++ex) {
         term_case<sv::cg<BE>>("cg",n,ex,0,rng,[](auto&){}); term_case<sv::bicgstab<BE>>("bicgstab",n,ex,0,rng,[](auto&){}); term_case<sv::gmres<BE>>("gmres",n,ex,0,rng,[&](auto &p){ p.M=n; }); term_case<sv::fgmres<BE>>("fgmres",n,ex,0,rng,[&](auto &p){ p.M=n; });
         if (T || ex) { term_case<sv::lgmres<BE>>("lgmres",n,ex,0,rng,[&](auto &p){ p.M=n; p.K=1; }); term_case<sv::idrs<BE>>("idrs-s1",n,ex,ex?0:n,rng,[](auto &p){ p.s=1; }); term_case<sv::bicgstabl<BE>>("bicgstabl-L1",n,ex,0,rng,[](auto &p){ p.L=1; }); } }
+    for (int n=2;n<=3;++n) for (int prec : {0,2}) { iterate_case<sv::bicgstabl<BE>>("bicgstabl-L1",n,1,prec,rng,[](auto &p){ p.L=1; }); iterate_case<sv::bicgstabl<BE>>("bicgstabl-L2",n,2,prec,rng,[](auto &p){ p.L=2; }); iterate_case<sv::idrs<BE>>("idrs-s1",n,1,prec,rng,[](auto &p){ p.s=1; }); if (T) iterate_case<sv::idrs<BE>>("idrs-s2",n,2,prec,rng,[](auto &p){ p.s=2; }); }
     return hx::finish();
 }
